@@ -486,3 +486,124 @@ func countCOps(ops []kit.COp, name string) int {
 	}
 	return n
 }
+
+// ---- C03 cut: the connection fails in place of the envelope that carries a failed handler's status ----
+
+// C03Cut: a handler returns a failure; the envelope that would tell the caller (the stream's trailer, the unary reply)
+// is still in the transport when the caller's Read fails. Whatever error value the transport reports - including a
+// bare io.EOF, which on a stream means "ended successfully" when handed to the application unchanged - the caller must
+// not be told that the call succeeded.
+type C03Cut struct {
+	Kind      int         `json:"kind"` // unary, client, server or bidi
+	Ret       kit.ErrSpec `json:"ret"`
+	Sent      int         `json:"sent"`       // messages the handler sends before failing (server-streaming kinds)
+	ErrKind   string      `json:"err_kind"`   // the transport's error value
+	WriteFail bool        `json:"write_fail"` // the write side fails too
+	Ser       bool        `json:"ser"`
+	RecvFirst bool        `json:"recv_first"` // the caller is already parked in its receive when the transport fails
+}
+
+func genC03Cut(t *rapid.T) C03Cut {
+	c := C03Cut{Kind: rapid.SampledFrom([]int{kit.KindUnary, kit.KindClient, kit.KindServer, kit.KindBidi}).Draw(t, "kind")}
+	c.Ret = kit.GenErrSpec(t, 0)
+	if c.Kind == kit.KindServer || c.Kind == kit.KindBidi {
+		c.Sent = rapid.IntRange(0, 3).Draw(t, "sent")
+	}
+	c.ErrKind = rapid.SampledFrom(kit.FaultErrKinds).Draw(t, "err_kind")
+	c.WriteFail = rapid.Bool().Draw(t, "write_fail")
+	c.Ser = rapid.Bool().Draw(t, "ser")
+	c.RecvFirst = rapid.Bool().Draw(t, "recv_first")
+	return c
+}
+
+func execC03Cut(t *testing.T, c C03Cut) (v Verdict) {
+	clog := &kit.CLog{}
+	hlog := &kit.HLog{}
+	var tap []kit.Ev
+	var unaryErr error
+	unaryDone := false
+	pl := kit.Payload{Class: "lit", Lit: []byte{1, 2, 3}}
+	res := kit.Bubble(t, func() {
+		svc := kit.NewSvc()
+		prog := kit.HProg{Ops: []kit.HOp{{Op: "recv"}}}
+		for i := 0; i < c.Sent; i++ {
+			prog.Ops = append(prog.Ops, kit.HOp{Op: "send", P: &pl})
+		}
+		prog.Ret = c.Ret
+		svc.Stream("s", c.Kind == kit.KindClient || c.Kind == kit.KindBidi, c.Kind == kit.KindServer || c.Kind == kit.KindBidi, func(s grpcServerStream) error { return kit.RunHandler(prog, s, hlog) })
+		svc.Unary("u", func(ctx context.Context, req []byte) ([]byte, error) {
+			hlog.MarkReturned()
+			return nil, c.Ret.Build()
+		})
+		w := kit.NewWorld(kit.Topo{Kind: "direct", Serialize: c.Ser, Clients: 1}, svc, nil, nil)
+		l := w.Links[0]
+		// the final envelope of the call stays in the transport (a slow Write is legal for a reliable transport)
+		l.B.Hold(func(r *kit.Rpc) bool { return r.GetTrailer() != nil })
+		ctx, cancel := context.WithCancel(context.Background())
+		defer cancel()
+		cut := func() {
+			if c.WriteFail {
+				l.A.FailWrites(kit.FaultErr(c.ErrKind))
+			}
+			l.A.FailReads(kit.FaultErr(c.ErrKind))
+		}
+		if c.Kind == kit.KindUnary {
+			go func() {
+				_, unaryErr = kit.Invoke(ctx, w.Conn(0), "u", pl.Bytes())
+				unaryDone = true
+			}()
+			kit.Settle() // the handler has failed; its reply is parked
+			cut()
+			kit.Settle()
+		} else {
+			cs, err := w.Conn(0).NewStream(ctx, kit.StreamDescFor(c.Kind), kit.FullMethod("s"))
+			if err != nil {
+				v.failf("open: %v", err)
+				return
+			}
+			kit.RunClientOps([]kit.COp{{Op: "send", P: &pl}, {Op: "close"}}, cs, cancel, clog)
+			kit.Settle() // the handler has sent its messages and failed; its trailer is parked
+			if c.RecvFirst {
+				go kit.RunClientOps([]kit.COp{{Op: "recvall"}}, cs, cancel, clog)
+				kit.Settle()
+				cut()
+			} else {
+				cut()
+				kit.Settle()
+				go kit.RunClientOps([]kit.COp{{Op: "recvall"}}, cs, cancel, clog)
+			}
+			kit.Settle()
+		}
+		tap = w.Tap.Snapshot()
+		l.B.Hold(nil)
+		for _, h := range l.Held() {
+			h.Release()
+		}
+		w.Shutdown()
+		kit.Settle()
+	})
+	if res.Panic != nil {
+		v.failf("panic: %v\n%s", res.Panic, res.Stack)
+	}
+	hs := hlog.Snapshot()
+	failed := c.Ret.Build() != nil
+	if !hs.Returned {
+		v.failf("harness: the handler has not returned")
+	} else if failed {
+		if c.Kind == kit.KindUnary {
+			if unaryDone && unaryErr == nil {
+				v.failf("unary: the handler failed (%s) and its reply never arrived (the transport failed with %s), but the caller was told the call succeeded", c.Ret.Kind, c.ErrKind)
+			}
+		} else if s := clog.Snapshot(); s.RecvEnd != nil && (s.RecvEnd.EOF || s.RecvEnd.Nil) {
+			v.failf("%s stream: the handler failed (%s) and its trailer never arrived (the transport failed with %s), but the caller's receive reported success (%q)", kit.KindNames[c.Kind], c.Ret.Kind, c.ErrKind, s.RecvEnd.Raw)
+		}
+	}
+	v.Info = kit.CaseInfo{Labels: []string{"cut.kind=" + kit.KindNames[c.Kind], "cut.err=" + c.ErrKind, "cut.ret=" + c.Ret.Kind, fmt.Sprintf("cut.failed=%v", failed)},
+		NonTrivial: failed, Key: fmt.Sprintf("%+v", c), Sample: c}
+	if v.Fail != "" {
+		v.Detail = map[string]any{"wire": tapSummary(tap, 60), "caller": clog.Snapshot(), "handler": hs}
+	}
+	return
+}
+
+func TestC03Cut(t *testing.T) { checkProp(t, "C03", "cut", genC03Cut, execC03Cut) }
